@@ -34,6 +34,12 @@ func (in *inst) Exec(t int, op vdrv.Op) string {
 	x := op.Arg(0)
 	if in.f != nil {
 		switch op.Name {
+		case "h": // a value outside the modelled (exactly representable) range: +-MaxFloat64
+			if x < 0 {
+				in.f.Add(-math.MaxFloat64)
+			} else {
+				in.f.Add(math.MaxFloat64)
+			}
 		case "a":
 			in.f.Add(float64(x))
 		case "i":
@@ -255,6 +261,9 @@ func monitor(s *vdrv.Scenario, h *vdrv.History, fin string, aborted string) stri
 			return fmt.Sprintf("after all updates returned Sum() = %s, exact total = %d (an update was lost, duplicated or torn)", f0, total)
 		}
 	}
+	if s.OptInt("nomodel", 0) != 0 && (s.Kind == "jdkf" || s.Kind == "atomicf") && len(s.Threads) == 1 {
+		return floatScript(cs, fin)
+	}
 	// C16: the quiescent script behaves like a single number
 	if len(s.Threads) == 1 || !stores || phased(s) {
 		if m := numberScript(s, cs, fin); m != "" {
@@ -305,6 +314,69 @@ func numberScript(s *vdrv.Scenario, cs []*call, fin string) string {
 		return fmt.Sprintf("quiescent script Sum,Store(7),Sum,Add(5),Sum,SumAndReset,Sum,Add(3),Reset,Sum,Add(11),Sum returned %s, a single number gives %s", fin, w)
 	}
 	return ""
+}
+
+// single-threaded float scripts with values outside the modelled range (overflow to +-Inf, NaN):
+// exact comparison with a plain float64
+func floatScript(cs []*call, fin string) string {
+	var v float64
+	apply := func(op vdrv.Op) string {
+		x := float64(op.Arg(0))
+		switch op.Name {
+		case "h":
+			if op.Arg(0) < 0 {
+				v += -math.MaxFloat64
+			} else {
+				v += math.MaxFloat64
+			}
+		case "a":
+			v += x
+		case "i":
+			v += 1
+		case "d":
+			v += -1
+		case "s":
+			return fz(v)
+		case "r":
+			v = 0
+		case "q":
+			r := fz(v)
+			v = 0
+			return r
+		case "w":
+			v = x
+		}
+		return "u"
+	}
+	same := func(a, b string) bool {
+		// every NaN is the same number for this purpose
+		return a == b || (strings.HasPrefix(a, "zf") && strings.HasPrefix(b, "zf") && isNaNBits(a) && isNaNBits(b))
+	}
+	for _, c := range cs {
+		if want := apply(c.op); !same(c.res, want) {
+			return fmt.Sprintf("op %s returned %s, a single float64 number gives %s", c.op, c.res, want)
+		}
+	}
+	var want []string
+	for _, op := range finalScript {
+		want = append(want, apply(op))
+	}
+	got := strings.Split(fin, ",")
+	for i := range want {
+		if i >= len(got) || !same(got[i], want[i]) {
+			return fmt.Sprintf("quiescent script returned %s, a single float64 number gives %s", fin, strings.Join(want, ","))
+		}
+	}
+	return ""
+}
+
+func isNaNBits(z string) bool {
+	b, err := strconv.ParseUint(z[2:], 10, 64)
+	if err != nil {
+		return false
+	}
+	f := math.Float64frombits(b)
+	return f != f
 }
 
 func phased(s *vdrv.Scenario) bool {
